@@ -60,7 +60,7 @@ CHECKS.update({
  "C12": dict(engine="typed_harness", category="exploration", design="DESIGN.md §2 C12",
    technique="algebraic-law PBT (proptest) over every stand-alone flag type: set/clear/get/is_empty/new/as_int/bit operators against an integer model; declared constants against the wowm model",
    text="For each generated stand-alone flag type every declared enumerator constant, predicate, setter and clearer is compared with the wowm declaration and with an integer model over all-zero, all-one, single-bit, multi-bit and proptest-drawn raw values; From/TryFrom of every width must preserve the value or fail.",
-   note=TYPED_NOTE + " Message-local synthesised flag structs are covered for their constants only where the scanner finds them (see evidence counts)."),
+   note=TYPED_NOTE + " The 35 message-local flag structs are checked for the integer their 677 typed constructors produce, not for the full algebra."),
  "C13": dict(engine="typed_harness", category="exploration", design="DESIGN.md §2 C13",
    technique="model-based stateful PBT: exhaustive short and proptest-generated long histories of typed setter/getter/dirty operations on every update-mask kind against a sparse map model; wire image decoded by the independent wowm model; offsets from the published field table",
    text="Every generated accessor (1221 plain, 441 indexed slots, 21 kinds x 3 expansions) is set, read back and located on the wire at the offset the published update-mask table gives; histories of set / overwrite / header-dirty / serialise / re-read operations are run against a map model after each step, exhaustively to depth 4 on a reduced alphabet and by proptest beyond.",
